@@ -755,6 +755,12 @@ def guarded_step(run, what="step() raised"):
         return None
     except (symx.PathEnd, symx.Restart, symx.PathViolation, symx.HarnessError):
         raise
+    except (AttributeError, NotImplementedError, TypeError) as e:
+        # an operation the stand-in does not implement is a limitation of the harness, never evidence about the repository
+        msg = str(e)
+        if IS_SYM and ("'Tensor' object has no attribute" in msg or "module 'torch" in msg or "symtorch" in msg or "unexpected keyword argument" in msg):
+            raise symx.HarnessError(f"torch stand-in lacks an operation the code under test uses: {type(e).__name__}: {msg[:200]}")
+        return e
     except Exception as e:
         return e
 
